@@ -30,6 +30,11 @@ Monitors (all observe real executions of core.REPO):
      must draw exactly like a freshly built object under the same generator state (else (e)).
      The branch taken without rng= must give the same draws as rng=RandomState(s) after
      np.random.seed(s) (else (e) on that branch).
+ (g) memory layout / views: dense matrices and vectors are handed over C-ordered, Fortran-ordered, as
+     transposed views, as non-contiguous slices of larger arrays and read-only; starting from a
+     never-sampled object: draw, then logd at fixed points, the object's parameter arrays, the
+     caller's arrays (bitwise, also at the end of the case) and a second draw from the same
+     generator state must be unchanged.
 """
 import math
 import numpy as np
@@ -57,11 +62,13 @@ REQUIRED_COUNTERS = {
     "quick": {"affine_map_read": 250, "cov_vs_logd_hessian_checked": 170, "mode_checked": 170, "stream_replay_checked": 750,
               "rng_reproducible_checked": 100, "global_state_checked": 100, "draws_distinct_checked": 100, "wrapper_shape_checked": 300,
               "ks_tests": 20, "moment_tests": 35, "independence_tests": 30, "conditional_refusal_checked": 15, "mhn_regime_draws": 150000,
-              "history_reassign_checked": 90, "global_branch_checked": 8},
+              "history_reassign_checked": 90, "global_branch_checked": 8, "first_draw_history_checked": 120,
+              "density_after_draw_checked": 240, "parameters_after_draw_checked": 450, "caller_arrays_checked": 500},
     "thorough": {"affine_map_read": 580, "cov_vs_logd_hessian_checked": 380, "mode_checked": 380, "stream_replay_checked": 1700,
                  "rng_reproducible_checked": 210, "global_state_checked": 200, "draws_distinct_checked": 200, "wrapper_shape_checked": 620,
                  "ks_tests": 45, "moment_tests": 75, "independence_tests": 60, "conditional_refusal_checked": 15, "mhn_regime_draws": 4000000,
-                 "history_reassign_checked": 200, "global_branch_checked": 15}}
+                 "history_reassign_checked": 200, "global_branch_checked": 15, "first_draw_history_checked": 250,
+                 "density_after_draw_checked": 500, "parameters_after_draw_checked": 900, "caller_arrays_checked": 1000}}
 BUDGET_S = {"quick": 240.0, "thorough": 2400.0}
 
 P_STAT = 1e-7
@@ -109,6 +116,21 @@ def cases(tier, seed):
     for form in ("cov", "prec", "sqrtcov", "sqrtprec"):      # one-dimensional Gaussians (scalar extraction path of sample(1))
         out.append({"kind": "gauss", "form": form, "shape": "scalar", "storage": "dense", "dimclass": "small", "n": 1,
                     "mean": "scalar", "geom": "default", "rep": 0, "scale": "moderate"})
+    # ---- memory layout of the caller's arrays: Fortran-ordered, transposed view, non-contiguous slice of a larger
+    #      array, read-only - in all four parameterisations (scipy / LAPACK in-place flags act on Fortran-ordered input)
+    for form, shapes in (("cov", ("full", "diag")), ("prec", ("full", "diag")), ("sqrtcov", ("nonsymmetric", "lower", "upper", "symmetric")),
+                         ("sqrtprec", ("nonsymmetric", "lower", "upper", "symmetric"))):
+        for shape in shapes:
+            for layout in ("F", "T_view", "slice", "readonly"):
+                dcs = ("small", "switch") if (shape in ("full", "nonsymmetric") and (layout in ("F", "T_view") or tier == "thorough")) else ("small",)
+                for dimclass in dcs:
+                    for rep in range(1 if tier == "quick" else 2):
+                        n = rnd.choice(_SMALL) if dimclass == "small" else rnd.choice(_SWITCH)
+                        out.append({"kind": "gauss", "form": form, "shape": shape, "storage": "dense", "dimclass": dimclass, "n": n,
+                                    "mean": "vector", "geom": "default", "rep": rep, "scale": "moderate", "layout": layout})
+        for layout in ("slice", "readonly"):
+            out.append({"kind": "gauss", "form": form, "shape": "vector", "storage": "dense", "dimclass": "small", "n": rnd.choice(_SMALL),
+                        "mean": "vector", "geom": "default", "rep": 0, "scale": "moderate", "layout": layout})
     # ---- Gaussian at extreme overall scales (standard deviations ~1e9 / ~1e-7): the structure detection of the
     #      sampler must not depend on the units
     for scale in ("huge_std", "tiny_std"):
@@ -162,7 +184,7 @@ def cases(tier, seed):
     return out
 
 def crash_config(case):
-    return {k: case[k] for k in ("kind", "form", "shape", "storage", "dimclass", "scale", "bc", "order", "pd", "family", "variant", "regime", "which") if k in case}
+    return {k: case[k] for k in ("kind", "form", "shape", "storage", "dimclass", "scale", "layout", "bc", "order", "pd", "family", "variant", "regime", "which") if k in case}
 
 _cfg = crash_config
 
@@ -201,6 +223,101 @@ def _values(out, N, dim):
     if dim == 1:
         return A.reshape(1, N)
     return None
+
+# =========================================================================== caller arrays, memory layouts
+
+_CALLER = []      # [label, array handed to the library, bitwise snapshot] of the running case
+
+def _register(label, A):
+    _CALLER.append((label, A, np.array(A, copy=True)))
+
+def _lay(A, layout, label="param"):
+    """Return the values of A in the requested memory layout and register the array (and, for slices, the
+    array it is a view of) so that 'inputs unchanged' is checked at the end of the case."""
+    if not isinstance(A, np.ndarray):
+        return A
+    A = np.asarray(A, dtype=float)
+    if layout in (None, "C"):
+        out = np.ascontiguousarray(A)
+    elif layout == "F":
+        out = np.asfortranarray(A)
+    elif layout == "T_view":
+        out = np.ascontiguousarray(A.T).T if A.ndim == 2 else A[::-1].copy()[::-1]
+    elif layout in ("slice", "ro_slice"):
+        big = np.full(tuple(2 * k + 1 for k in A.shape), 7.25)
+        sl = tuple(slice(1, 2 * k + 1, 2) for k in A.shape)
+        big[sl] = A
+        _register(label + ":base", big)
+        out = big[sl]
+        if layout == "ro_slice":
+            out.setflags(write=False)
+    elif layout == "readonly":
+        out = np.array(A, order="C", copy=True)
+        out.setflags(write=False)
+    else:
+        raise ValueError(layout)
+    _register(label + ":" + str(layout or "C"), out)
+    return out
+
+def _caller_arrays_monitor(ctx, cfg):
+    for label, A, snap in _CALLER:
+        ctx.count("caller_arrays_checked")
+        if A.shape != snap.shape or A.tobytes() != snap.tobytes():
+            ctx.violation("caller_array_modified", {**cfg, "array": label.split(":")[0]},
+                          detail=f"the array '{label}' handed to the library was changed (max abs change {np.max(np.abs(np.asarray(A) - snap)) if A.shape == snap.shape else 'shape'})")
+
+def _param_snapshot(d):
+    import scipy.sparse as sp
+    snap = {}
+    for nm in list(d.get_mutable_variables()) + ["sqrtprec", "_sqrtprec", "_prec", "_cov"]:
+        try:
+            v = getattr(d, nm)
+        except Exception:  # noqa
+            continue
+        if sp.issparse(v):
+            snap[nm] = v.toarray() if v.shape[0] <= 120 else np.array(v.tocsr().data, copy=True)
+        elif isinstance(v, np.ndarray) or np.isscalar(v):
+            snap[nm] = np.array(v, copy=True)
+    return snap
+
+def _first_draw_monitor(ctx, d, cfg, probes):
+    """History starting from a never-sampled object: draw, then logd, the object's parameter arrays and a second
+    draw from the same generator state must be what they were."""
+    raw = lambda out: np.array(getattr(out, "samples", out), dtype=float, copy=True)
+    def dens():
+        vals = []
+        for x in probes:
+            with np.errstate(all="ignore"):
+                k, v = core.outcome(d.logd, x)
+            if k != "value" and hasattr(d, "_logupdf"):
+                k, v = core.outcome(d._logupdf, x)
+            vals.append(np.ravel(np.asarray(v, dtype=float)) if k == "value" else np.array([np.nan]))
+        return vals
+    p0, l0 = _param_snapshot(d), dens()
+    k1, a = core.outcome(lambda: raw(d.sample(3, rng=np.random.RandomState(91))))
+    if k1 != "value":
+        return      # reported by the other monitors
+    core.outcome(d.sample, 1, rng=np.random.RandomState(92))
+    k2, b = core.outcome(lambda: raw(d.sample(3, rng=np.random.RandomState(91))))
+    p1, l1 = _param_snapshot(d), dens()
+    hc = {**cfg, "history": "after_first_draw"}
+    ctx.count("first_draw_history_checked")
+    if k2 != "value" or a.shape != b.shape or not np.array_equal(a, b):
+        ctx.violation("rng_not_reproducible", hc, detail="sample(3, rng=RandomState(91)) repeated after other draws from the same object "
+                      f"gives other values (max diff {np.max(np.abs(a - b)) if k2 == 'value' and a.shape == b.shape else b!r})")
+    for x, u, v in zip(probes, l0, l1):
+        ctx.count("density_after_draw_checked")
+        # (not bitwise: scipy's sparse solvers sort the indices of the stored factor in place, which changes the
+        #  summation order of later products in the last bit)
+        if u.shape != v.shape or not ctx.close(u, v, rtol=1e-10, atol=0.0):
+            ctx.violation("sampling_changes_density", hc, detail=f"logd at a fixed point was {u.tolist()} before the first draw and is {v.tolist()} after it")
+            break
+    for nm in p0:
+        ctx.count("parameters_after_draw_checked")
+        if nm not in p1 or p0[nm].shape != p1[nm].shape or p0[nm].tobytes() != p1[nm].tobytes():
+            ctx.violation("sampling_writes_parameters", {**hc, "parameter": nm.lstrip("_")},
+                          detail=f"attribute '{nm}' of the distribution changed while sampling")
+    _caller_arrays_monitor(ctx, hc)
 
 # =========================================================================== monitor (c): containers
 
@@ -494,6 +611,8 @@ def _gauss_matrix(case, rs):
         M = sp.csr_matrix(M)
     elif storage == "dia":
         M = sp.dia_matrix(M)
+    else:
+        M = _lay(M, case.get("layout", "C"), label=form)
     return M
 
 def _gauss_mean(case, rs):
@@ -501,7 +620,7 @@ def _gauss_mean(case, rs):
     mean = np.zeros(n) if mk == "zeros" else (rs.uniform(-3, 3, n) if mk == "vector" else float(rs.uniform(-3, 3)))
     if case.get("scale") == "huge_std":
         mean = mean * 1e9
-    return mean
+    return _lay(mean, "ro_slice" if case.get("layout") in ("slice", "readonly") else "C", label="mean")
 
 def _build_gauss(cuqi, case, rs):
     n, form, shape = case["n"], case["form"], case["shape"]
@@ -522,6 +641,10 @@ def _run_gauss(case, ctx, cuqi, rs):
         ctx.violation("crash", {**cfg, "exc": type(d).__name__, "at": "constructor"}, detail=f"well-posed Gaussian refused: {d!r}")
         return
     ctx.note("n", case["n"])
+    n = case["n"]
+    unit = {"huge_std": 1e9, "tiny_std": 1e-7}.get(case.get("scale"), 1.0)
+    m0 = np.ones(n) * np.asarray(d.mean, dtype=float)
+    _first_draw_monitor(ctx, d, cfg, [m0 + unit * rs.standard_normal(n), m0 - 0.5 * unit * rs.standard_normal(n)])
     if _affine_monitor(ctx, d, cfg):
         ctx.nontrivial()
     _rng_monitor(ctx, d, cfg)
@@ -544,9 +667,11 @@ def _run_gmrf(case, ctx, cuqi, rs):
     N, pd, bc, order = case["N"], case["pd"], case["bc"], case["order"]
     n = N ** pd
     geom = cuqi.geometry.Continuous1D(N) if pd == 1 else cuqi.geometry.Image2D((N, N))
-    mean = np.zeros(n) if case["mean"] == "zeros" else rs.uniform(-2, 2, n)
+    mean = _lay(np.zeros(n) if case["mean"] == "zeros" else rs.uniform(-2, 2, n), ("ro_slice", "readonly", "C")[(N + order) % 3], label="mean")
     delta = float(10 ** rs.uniform(-1, 1.5))
     d = cuqi.distribution.GMRF(mean, delta, bc_type=bc, order=order, geometry=geom, name="x")
+    if not (bc == "periodic" and pd == 2):
+        _first_draw_monitor(ctx, d, cfg, [np.asarray(mean) + rs.standard_normal(n), np.asarray(mean) - rs.standard_normal(n)])
     if bc == "periodic" and pd == 2:
         kind, val = core.outcome(d.sample, 2, rng=np.random.RandomState(0))
         ctx.count("refusal_observed")
@@ -581,8 +706,12 @@ def _run_lognormal(case, ctx, cuqi, rs):
     elif shape == "vector":
         cov = rs.uniform(0.05, 0.6, n)
     else:
-        cov = L.spd(rs, n, cond=10.0, scale=0.05)
+        cov = _lay(L.spd(rs, n, cond=10.0, scale=0.05), ("F", "T_view", "slice", "readonly")[case.get("rep", 0) % 4], label="cov")
+    mean = _lay(mean, "ro_slice", label="mean")
+    if shape == "vector":
+        cov = _lay(cov, "ro_slice", label="cov")
     d = cuqi.distribution.Lognormal(mean, cov, name="x")
+    _first_draw_monitor(ctx, d, cfg, [np.exp(np.asarray(mean) + 0.3 * rs.standard_normal(n)), np.exp(np.asarray(mean) - 0.3 * rs.standard_normal(n))])
     ok = _affine_monitor(ctx, d, cfg, T=np.log, T_inv=np.exp, log_jac=lambda y: float(np.sum(y)))
     if ok:
         ctx.nontrivial()
@@ -601,9 +730,10 @@ def _run_normal(case, ctx, cuqi, rs):
         mean, std = float(rs.uniform(-3, 3)), float(10 ** rs.uniform(-1, 1))
         d = cuqi.distribution.Normal(mean, std, geometry=n, name="x")
     elif params == "vector":
-        d = cuqi.distribution.Normal(rs.uniform(-3, 3, n), 10 ** rs.uniform(-1, 1, n), geometry=_geometry(cuqi, "discrete", n), name="x")
+        d = cuqi.distribution.Normal(_lay(rs.uniform(-3, 3, n), "ro_slice", "mean"), _lay(10 ** rs.uniform(-1, 1, n), "ro_slice", "std"), geometry=_geometry(cuqi, "discrete", n), name="x")
     else:
-        d = cuqi.distribution.Normal(rs.uniform(-3, 3, n), float(10 ** rs.uniform(-1, 1)), geometry=_geometry(cuqi, "image2d", n), name="x")
+        d = cuqi.distribution.Normal(_lay(rs.uniform(-3, 3, n), "readonly", "mean"), float(10 ** rs.uniform(-1, 1)), geometry=_geometry(cuqi, "image2d", n), name="x")
+    _first_draw_monitor(ctx, d, cfg, [rs.uniform(-3, 3, n), rs.uniform(-3, 3, n)])
     if _affine_monitor(ctx, d, cfg):
         ctx.nontrivial()
     _rng_monitor(ctx, d, cfg)
@@ -616,6 +746,7 @@ def _run_normal(case, ctx, cuqi, rs):
 def _run_gallery(case, ctx, cuqi, rs):
     cfg = _cfg(case)
     d = cuqi.distribution.DistributionGallery(case["name"], name="x")
+    _first_draw_monitor(ctx, d, cfg, [rs.standard_normal(2), rs.standard_normal(2)])
     if _affine_monitor(ctx, d, cfg):
         ctx.nontrivial()
     _rng_monitor(ctx, d, cfg)
@@ -623,9 +754,20 @@ def _run_gallery(case, ctx, cuqi, rs):
 
 # =========================================================================== statistical families
 
+class _LayoutD:
+    """cuqi.distribution with every vector argument handed over as a read-only, non-contiguous view (registered)."""
+    def __init__(self, D):
+        self._D = D
+    def __getattr__(self, name):
+        cls = getattr(self._D, name)
+        def make(*a, **k):
+            a = [_lay(x, "ro_slice", label="arg%d" % i) if isinstance(x, np.ndarray) and x.ndim == 1 and x.size > 1 else x for i, x in enumerate(a)]
+            return cls(*a, **k)
+        return make
+
 def _build_stat(cuqi, case, rs):
     """-> (distribution, per-coordinate support (lo, hi) arrays, moments_ok, constructor parameters)"""
-    D = cuqi.distribution
+    D = _LayoutD(cuqi.distribution)
     fam, v = case["family"], case["variant"]
     inf = np.inf
     if fam == "Normal":
@@ -784,6 +926,9 @@ def _run_stat(case, ctx, cuqi, rs):
     dim = int(d.dim)
     n = NS_STAT[ctx.tier]
     fam = case["family"]
+    inside = lambda f: np.array([(l + f * (h - l)) if np.isfinite(l) and np.isfinite(h) else ((l + 2 * f) if np.isfinite(l) else 2 * f - 0.7)
+                                 for l, h in zip(np.ones(dim) * lo[:1] if len(lo) != dim else lo, np.ones(dim) * hi[:1] if len(hi) != dim else hi)])
+    _first_draw_monitor(ctx, d, cfg, [inside(0.3), inside(0.6)])
     seeds = [int(rs.randint(1, 2 ** 31 - 1)) for _ in range(2)]
     mhn_args = []
     def draw(nn, seed):
@@ -1083,10 +1228,13 @@ def run_case(case, ctx):
     warnings.filterwarnings("ignore")
     rs = core.np_rng(ctx.seed, PROPERTY, core.canon(case))
     st = np.random.get_state()
+    del _CALLER[:]
     try:
         _RUN[case["kind"]](case, ctx, cuqi, rs)
+        _caller_arrays_monitor(ctx, {**_cfg(case), "history": "end_of_case"})
     finally:
         np.random.set_state(st)
+        del _CALLER[:]
 
 def selftest(ctx):
     for msg in L.selftest():
